@@ -200,6 +200,36 @@ def make_file_pair(rng, fmt, workdir, n=None, pos_cls=None):
             "n_ref": n, "n_est": len(idx), "t_ref": ref["t"], "t_est": t_est}
 
 
+REAL_PAIRS = [
+    ("tum", "fr2_desk_groundtruth.txt", "fr2_desk_ORB.txt"),
+    ("tum", "fr2_desk_groundtruth.txt", "fr2_desk_ORB_kf_mono.txt"),
+    ("tum", "freiburg1_xyz-groundtruth.txt", "freiburg1_xyz-rgbdslam.txt"),
+    ("tum", "freiburg1_xyz-groundtruth.txt", "freiburg1_xyz-ORB_kf_mono.txt"),
+    ("tum", "freiburg1_xyz-groundtruth.txt", "freiburg1_xyz-rgbdslam_drift.txt"),
+    ("kitti", "KITTI_00_gt.txt", "KITTI_00_ORB.txt"),
+    ("kitti", "KITTI_00_gt.txt", "KITTI_00_SPTAM.txt"),
+    ("euroc", "V102_groundtruth.csv", "V102.txt"),
+]
+
+
+def real_file_pair(rng, work):
+    """one of the real dataset pairs bundled with the repository (test/data), copied into work"""
+    import shutil
+    fmt, r, e = REAL_PAIRS[rng.integers(len(REAL_PAIRS))]
+    d = os.path.join(str(core.REPO), "test", "data")
+    refp = os.path.join(work, "ref.csv" if fmt == "euroc" else "ref.txt")
+    estp = os.path.join(work, "est.txt")
+    shutil.copyfile(os.path.join(d, r), refp)
+    shutil.copyfile(os.path.join(d, e), estp)
+    fp = {"fmt": fmt, "ref_path": refp, "est_path": estp, "offset": 0.0, "real": (r, e)}
+    ref, est, stamped = parse_inputs(fp)
+    fp.update({"n_ref": ref.n, "n_est": est.n, "ext": float(np.max(np.abs(ref.p - ref.p.mean(axis=0)))) + 1e-3,
+               "dt": float(np.median(np.diff(est.t))) if stamped else 0.1,
+               "t_ref": ref.t if stamped else np.arange(ref.n, dtype=float),
+               "t_est": est.t if stamped else np.arange(est.n, dtype=float)})
+    return fp
+
+
 def parse_inputs(fp):
     """independent parse of the two files -> (ShadowTrajectory ref, est, stamped)"""
     rt = open(fp["ref_path"]).read()
@@ -409,7 +439,11 @@ def ape_cli(run, case, rng, work):
     record (for C12) or None when refused / ambiguous / violated early"""
     from evo.tools import settings
     fmt = case.get("fmt") or ["tum", "tum", "kitti", "euroc"][rng.integers(4)]
-    fp = make_file_pair(rng, fmt, work)
+    if case.get("real"):
+        fp = real_file_pair(rng, work)
+        fmt = fp["fmt"]
+    else:
+        fp = make_file_pair(rng, fmt, work)
     argv_o, o = draw_common_options(rng, fp)
     rel_cli = list(CLI_REL)[rng.integers(len(CLI_REL))]
     relation = CLI_REL[rel_cli]
@@ -429,7 +463,7 @@ def ape_cli(run, case, rng, work):
     run.seen(case, core.digest(open(fp["ref_path"]).read(), open(fp["est_path"]).read(), argv),
              cls=["L3 fmt:" + fmt, "L3 relation:" + rel_cli] +
              ["opt:" + k for k, v in o.items() if v and v != -1 and k not in ("t_max_diff", )] +
-             (["opt:change_unit"] if unit else []),
+             (["opt:change_unit"] if unit else []) + (["L3 real dataset: %s / %s" % fp["real"]] if "real" in fp else []),
              sample={"argv": argv, "outcome": got or "ok"})
     # ---- reference
     try:
@@ -509,6 +543,8 @@ def main(run):
         k_unequal(run, run.case("unequal", i))
     for i in run.mine({"quick": 400, "thorough": 8000}[run.tier]):
         k_cli(run, run.case("cli", i))
+    for i in run.mine({"quick": 8, "thorough": 160}[run.tier]):
+        k_cli(run, run.case("cli", 10**6 + i, real=True))
     run.need("APE value == definition applied to its own pose pair", "APE: unequal lengths refused",
              "APE unchanged when ref/est swapped", "APE unchanged under a common rigid motion",
              "APE zero when trajectories coincide", "APE: exactly one value per pose",
